@@ -218,7 +218,7 @@ func Worker(p *Property, tier Tier, seed uint64, w, W int, hashFirst int, maxInd
 				}
 				res.Violations = append(res.Violations, &FoundViolation{Violation: v, Scenario: sc, RunIndex: i})
 				nv++
-				if nv >= 3 {
+				if nv >= maxViolations() {
 					break
 				}
 			}
@@ -659,4 +659,15 @@ func PanicSite(stack, pkgFragment string) string {
 		}
 	}
 	return "unknown"
+}
+
+func maxViolations() int {
+	if s := os.Getenv("VERIF_MAX_VIOL"); s != "" {
+		var n int
+		fmt.Sscanf(s, "%d", &n)
+		if n > 0 {
+			return n
+		}
+	}
+	return 3
 }
